@@ -352,6 +352,11 @@ Definition mkdir (s : vol) (parts : list name) : vol * res unit :=
       if negb (r_exists pr) then (s, Err FileNotFound)
       else if negb (r_isdir pr) then (s, Err NotADirectory)
       else
+        (* parent._index._get_names(self.name): an unusable name is refused before anything is
+           allocated or written *)
+        match make_entry (r_index pr) (items_of s (r_index pr)) (leaf parts) 16 0 with
+        | Err e => (s, Err e)
+        | Ok _ =>
         match FatAlloc.Model.free_scan P (FatAlloc.Model.ftbl (v_fat s)) limit (FatAlloc.Model.hint_of (v_fat s)) with
         | [] => (s, Err OSError_ENOSPC)                    (* next(fs.fat.free()) *)
         | c :: _ =>
@@ -362,6 +367,7 @@ Definition mkdir (s : vol) (parts : list name) : vol * res unit :=
             (set_fat (fst x) (FatAlloc.Model.mark_free (v_fat (fst x)) c), Err e)
           | Ok _ => (new_dir (fst x) c (r_cluster pr), Ok tt)    (* '.' and '..' *)
           end
+        end
         end
     end
   end.
